@@ -363,6 +363,27 @@ func drawVeneers(rt *rapid.T, c pipeCase) []string {
 	return out
 }
 
+// pipeSample is a short description of a pipeline for the evidence file.
+func pipeSample(c pipeCase) map[string]any {
+	var inputs []string
+	for _, in := range c.Inputs {
+		desc := string(in.Format)
+		if in.Model != nil {
+			desc += " " + in.Model.Describe()
+		} else {
+			desc += " " + in.RawPackage + " (hand-written)"
+		}
+		if in.SplitPkg != "" {
+			desc += " + package " + in.SplitPkg
+		}
+		if in.Meta != nil {
+			desc += " [" + in.Meta.Kind + "/" + in.Meta.Variant + "]"
+		}
+		inputs = append(inputs, desc)
+	}
+	return map[string]any{"inputs": inputs, "languages": c.Languages, "flags": onFlags(c.Config), "veneer_files": len(c.Config.Veneers), "common_passes": c.Config.CommonPasses}
+}
+
 func pipeLabels(run *vlib.Run, c pipeCase) {
 	run.Label(fmt.Sprintf("inputs:%d", len(c.Inputs)), fmt.Sprintf("languages:%d", len(c.Languages)))
 	run.Label(prefixAll("language:", c.Languages)...)
@@ -413,6 +434,7 @@ func TestC03(t *testing.T) {
 	rapid.Check(t, func(rt *rapid.T) {
 		c := drawPipeCase(rt, 3, 1)
 		pipeLabels(run, c)
+		run.Sample(pipeSample(c))
 		if vs := c03CheckN(run, c, repeats); len(vs) > 0 {
 			vlib.Fail(rt, run.Judge(c, vs))
 		}
